@@ -114,8 +114,16 @@ impl<H> HandlerVec<H> {
         &mut self,
         mut cb: impl FnMut(H) -> HandlerResult,
     ) -> HandlerResult {
-        // already-handled end tag handlers may be first, and they must not be removed
-        if let Some(first) = self.items.iter().position(|item| item.user_count > 0) {
+        // already-handled end tag handlers may be first, and they must not be removed.
+        // The active handlers belong to the most recently opened elements, so they are always at the tail:
+        // look for them from the back, to not rescan all handlers of the still open elements on every end tag.
+        let first = self
+            .items
+            .iter()
+            .rposition(|item| item.user_count == 0)
+            .map_or(0, |last_inactive| last_inactive + 1);
+
+        if first < self.items.len() {
             // Must drop everything after, as remove() would change indexes anyway, breaking locators.
             // rev() is for backwards-compat with previous implementation.
             for item in self.items.drain(first..).rev() {
